@@ -61,13 +61,15 @@ CLAIMED = {
          "the six coupling-restricted get_weight's sum to the unrestricted one and every NC weight builder is additive. Real runs compare the sums entry-wise.",
          "Trusted: Coq kernel+vm_compute; harness; model tied by sampled correspondence; linearity of compute_local in the kernel list (C01). For NfFF>=4 the "
          "massless heavy quarks are slices of light, so the partition proved is over the massive quarks only (DESIGN 4 C07).", "4 C07"),
- "C08": ("Coq theorems (case analysis, list induction over the outcome monad) on the hand-written Weights/Combiner model: pairing of every asymptotic kernel with its massive counterpart; "
-         "model tied by differential correspondence on the real Combiner in FFN0 and FFNS cells; the limit itself is explored on real FFNS/FFN0 run pairs",
-         "Proof (structural half): for CC, NC parity-conserving, intrinsic and 'missing' channels, any couplings, nf, heavy quark and order, the FFN0 kernels carry exactly the parton weights, nf "
-         "and heavy-quark mass of the FFNS ones. PARTIAL: the analytic half (each asymptotic coefficient function is the Q2/m2 -> infinity limit of the massive one) is not proved — LeProHQ is "
-         "third-party, the CC massive coefficients are closures over instance state; it is tested on real runs at Q2/m2 = 1e2, 1e4, 1e6 against a power-law envelope. NC F2/FL FFN0 cannot "
-         "run here (adani). One defect fixed (0513cfd9), one open finding (NNLO non-singlet 'missing' channel of F3/g1).",
-         "Trusted: Coq kernel+vm_compute; tools/corr/wlayer.py; the patrol is a test of the analytic half.", "0.3 / 4 C08"),
+ "C08": ("Coq theorems: (structural half) case analysis / list induction over the outcome monad on the hand-written Weights/Combiner model; (analytic half, CC gluon channel) real-analysis "
+         "inequalities (field, ln monotonicity, nra) on the closures REGENERATED from the source by the instance-closure translator tools/pyinst.py; Combiner model tied by differential "
+         "correspondence in FFN0 and FFNS cells; the remaining channels are explored on real FFNS/FFN0 run pairs",
+         "Proof: for CC, NC parity-conserving, intrinsic and 'missing' channels, any couplings, nf, heavy quark and order, the FFN0 kernels carry exactly the parton weights, nf and heavy-quark "
+         "mass of the FFNS ones; for the NLO gluon channel of CC F2, FL, F3 the asymptotic coefficient function is the limit of the massive one with the explicit remainder "
+         "|massive(z; lambda) - asy(z; ln(lambda/(1-lambda)))| <= (1-lambda)(A(z) + B |ln(1-lambda)|), 1-lambda = m2/(Q2+m2), every z in (0,1), lambda in [1/2,1). PARTIAL: the quark channels "
+         "(plus distributions with a lambda-dependent singular part) and all NC channels (LeProHQ, third party) are tested on real runs at Q2/m2 = 1e2, 1e4, 1e6 against a power-law "
+         "envelope, not proved. NC F2/FL FFN0 cannot run here (adani). One defect fixed (0513cfd9), one open finding (NNLO non-singlet 'missing' channel of F3/g1).",
+         "Trusted: Coq kernel+vm_compute, reals axioms as printed; tools/pyinst.py (translator, validated numerically against real instances by corr/instk.py); tools/corr/wlayer.py; the patrol is a test.", "0.3 / 4 C08"),
  "C09": ("Coq theorems over the rationals (lra/nra/field) on a hand-written model of the threshold test, the decorator, the closure shape and the slow-rescaling point; tied by "
          "differential correspondence on every class of heavy/*_nc.py and heavy/*_cc.py at dyadic points exactly on / next to the thresholds",
          "Proof: is_below z <-> Q2(1-z) <= 4 m2 z (boundary included); below the hadronic threshold every order of every NC pair-production channel is the empty distribution; the "
